@@ -108,11 +108,16 @@ def reach_set(ctx):
     return fb, cg, reach
 
 
-def rule_panic(ctx, R):
+def rule_panic(ctx, R, roots=None, skip=()):
     fb, cg, reach = reach_set(ctx)
-    R.floor("reachable_bodies", len(reach), 120, "bodies reachable from run/check/main")
+    if roots is None:
+        R.floor("reachable_bodies", len(reach), 120, "bodies reachable from run/check/main")
+    else:
+        reach = cg.reachable([r for r in roots if r in fb.bodies])
     n = 0
     for name in sorted(reach):
+        if name in skip:
+            continue
         body = fb.bodies[name]
         if body.path in fb.helpers:
             continue  # a helper's sites are audited in the callers it is inlined into
@@ -133,7 +138,9 @@ def rule_panic(ctx, R):
             if why is None and name in AUDITED_FN_PREFIX and s["kind"] == AUDITED_FN_PREFIX[name][0]:
                 why = AUDITED_FN_PREFIX[name][1]
             R.check(why is not None, "panic:%s:%s" % (name, s["key"]), "panic-capable site in %s [%s]: %s" % (name, s["key"][:100], why or "NOT discharged and NOT in the audited table"), s["where"])
-    R.floor("panic_sites", n, 100, "panic-capable / terminating sites enumerated below run/check/main")
+    if roots is None:
+        R.floor("panic_sites", n, 100, "panic-capable / terminating sites enumerated below run/check/main")
+    return n
 
 
 def rule_exit(ctx, R):
